@@ -173,7 +173,7 @@ def search_bad_table_entry(chk, notn, tb, bad) -> bool:
 SUB12 = {'polish': ['a', 'N', 'K', 'F', 'I', 'm', 'x', 'y', 'S', '1', ' ', 'é'],
          'standard': ['A', '~', '&', 'F', '=', 'a', 'x', '(', ')', 'X', '1', ' ']}
 
-FOREIGN = ['é', '∧', '¬', ':', '_', '\t', '\n', ' ', '\U0001d538', '\x00', '[', 'q', 'Z', '-', '١']
+FOREIGN = ['é', '∧', '¬', ':', '_', '\t', '\n', ' ', '\U0001d538', '\x00', '[', 'q', 'Z', '-', '١', '{', '}', '{0}', '%s', '\\']
 
 STORES = [
     dict(preds=[], auto=True),
@@ -225,6 +225,13 @@ def gen_inputs(rng: random.Random, notn: str, ref: pl.Ref, n_random: int, n_mut:
         L = rng.choice([1, 2, 3, 5, 8, 12, 20, 30])
         al = alphabet + (FOREIGN if rng.random() < 0.3 else [])
         out.append(('random', ''.join(rng.choice(al) for _ in range(L))))
+    # every foreign character at the start, inside and at the end of a well-formed sentence, and alone
+    g0 = pl.SentGen(random.Random(7))
+    for j0 in (g0.sent(1), g0.sent(2), g0.sent(3)):
+        base = render(notn, ref, j0)
+        for ch in FOREIGN:
+            for st in (ch, ch + base, base + ch, base[:1] + ch + base[1:], base[:-1] + ch + base[-1:]):
+                out.append(('foreign', st))
     for _ in range(n_mut):
         g = pl.SentGen(rng)
         j = g.sent(rng.choice([1, 2, 3, 4, 6]))
